@@ -1,6 +1,883 @@
-//! C02 — harness module not built yet.
+//! C02 — a mint charges exactly the price in force and disburses all of it (vending family).
+//! Worlds with governance-chosen prices / fee bps / airdrop price, native and IBC factory
+//! denom, with and without payment address, optional whitelist with its own price, on all
+//! six vending minters.  Histories are generated *adaptively*: before every mint the
+//! generator asks the real contracts for the price in force and then sends the payment
+//! sweep (price-1, price+1, wrong denom, two coins, nothing / a coin at price 0, exact).
+//! The executed op list is the case (so a replay re-runs exactly it).  Monitors evaluate
+//! the property text on bank balances before/after every step; every minter step is also
+//! printed for the Coq model (corr/SaleCorr.v: handler state, queries, every balance).
+use crate::chain;
+use crate::util::*;
+use crate::w_sale::*;
 use crate::Args;
-pub fn run(_a: &Args) {
-    eprintln!("C02: harness module not built yet");
-    std::process::exit(2);
+use serde::{Deserialize, Serialize};
+use serde_json::Value;
+use std::collections::{BTreeMap, BTreeSet};
+
+const BIG: u128 = 1u128 << 100;
+const FUND: u128 = 1u128 << 110;
+const KNOWN_KEY: &str = "C02:vending-airdrop-remainder-stranded";
+
+#[derive(Clone, Debug, Serialize, Deserialize)]
+pub struct Case {
+    pub variant: usize,
+    pub ibc: bool,
+    pub min_price: u128,
+    pub price: u128,
+    pub mint_fee_bps: u64,
+    pub airdrop_price: u128,
+    pub airdrop_fee_bps: u64,
+    pub payment_address: bool,
+    pub wl: bool,
+    pub wl_price: u128,
+    pub ops: Vec<Op>,
+}
+
+fn cfg_of(c: &Case) -> SaleCfg {
+    let mut cfg = SaleCfg::basic(c.variant);
+    cfg.fp.min_price = c.min_price;
+    cfg.fp.denom = if c.ibc { IBC.into() } else { NATIVE.into() };
+    cfg.fp.mint_fee_bps = c.mint_fee_bps;
+    cfg.fp.airdrop_price = c.airdrop_price;
+    cfg.fp.airdrop_fee_bps = c.airdrop_fee_bps;
+    cfg.num_tokens = 100;
+    cfg.pal = 3;
+    cfg.price = c.price;
+    cfg.start_in_secs = 3000;
+    cfg.payment_address = c.payment_address;
+    cfg.wl = if !c.wl {
+        WlKind::None
+    } else if VARIANTS[c.variant].flex {
+        WlKind::Flex
+    } else {
+        WlKind::Plain
+    };
+    cfg.wl_windows = vec![(1000, 2000)];
+    cfg.wl_price = c.wl_price;
+    cfg.wl_limit = 20;
+    cfg.wl_flex_count = 20;
+    cfg
+}
+
+pub struct CaseResult {
+    pub coq: Option<String>,
+    pub steps: u64,
+    pub ok_mints: u64,
+    pub violations: Vec<(String, String, usize)>, // (key, what, index of the op in case.ops)
+    pub hist: BTreeMap<String, u64>,
+    pub distinct: BTreeSet<String>,
+}
+
+fn op_kind(op: &Op) -> &'static str {
+    match op {
+        Op::At { .. } => "at",
+        Op::Mint { .. } => "mint",
+        Op::MintM { .. } => "mint_merkle",
+        Op::MintTo { .. } => "mint_to",
+        Op::MintFor { .. } => "mint_for",
+        Op::Purge { .. } => "purge",
+        Op::Shuffle { .. } => "shuffle",
+        Op::BurnRemaining { .. } => "burn_remaining",
+        Op::UpdateMintPrice { .. } => "update_mint_price",
+        Op::UpdateStartTime { .. } => "update_start_time",
+        Op::UpdateStartTradingTime { .. } => "update_start_trading_time",
+        Op::UpdatePerAddressLimit { .. } => "update_per_address_limit",
+        Op::SetWhitelist { .. } => "set_whitelist",
+        Op::UpdateDiscountPrice { .. } => "update_discount_price",
+        Op::RemoveDiscountPrice { .. } => "remove_discount_price",
+        Op::SudoParams { .. } => "sudo_params",
+        Op::WlAddMember { .. } => "wl_add_member",
+    }
+}
+
+fn amount_of(v: &Value) -> Option<(u128, String)> {
+    Some((v.get("amount")?.as_str()?.parse().ok()?, v.get("denom")?.as_str()?.to_string()))
+}
+
+/// What the property text needs to know before a mint: the price in force for this kind
+/// of mint, the fee rate that applies, and who is the seller.
+struct Pre {
+    price: u128,
+    denom: String,
+    bps: u64,
+    airdrop: bool,
+    kind: &'static str, // public | whitelist | airdrop
+    payer: String,
+    funds: Vec<(String, u128)>,
+}
+
+pub struct Driver {
+    pub w: SaleWorld,
+    pub case: Case,
+    vname: &'static str,
+    featured: bool,
+    seller: String,
+    init: String,
+    init_bal: String,
+    steps: Vec<String>,
+    pub res: CaseResult,
+    op_index: usize,
+}
+
+impl Driver {
+    pub fn new(c: &Case) -> Result<Driver, String> {
+        let mut w = SaleWorld::new(cfg_of(c))?;
+        // very large prices need very rich payers
+        for a in [CREATOR, BUYERS[0], BUYERS[1], BUYERS[2], STRANGER] {
+            for d in [NATIVE, IBC] {
+                chain::mint_coins(&mut w.app, a, FUND, d);
+            }
+        }
+        for d in [NATIVE, IBC] {
+            w.initial_supply.insert(d.to_string(), chain::supply(&w.app, d));
+        }
+        let init = w.init_state_coq();
+        let init_bal = w.balances_coq();
+        let v = VARIANTS[c.variant];
+        Ok(Driver {
+            w,
+            case: Case { ops: vec![], ..c.clone() },
+            vname: v.name,
+            featured: v.featured,
+            seller: if c.payment_address { PAYADDR.into() } else { CREATOR.into() },
+            init,
+            init_bal,
+            steps: vec![],
+            res: CaseResult { coq: None, steps: 0, ok_mints: 0, violations: vec![], hist: BTreeMap::new(), distinct: BTreeSet::new() },
+            op_index: 0,
+        })
+    }
+
+    /// price in force as the contracts report it right now (MintPrice query for public /
+    /// whitelist mints; the factory's airdrop coin for MintTo / MintFor)
+    pub fn price_in_force(&self, airdrop: bool) -> Option<(u128, String)> {
+        if airdrop {
+            let p = self.w.factory_params();
+            amount_of(&p["extension"]["airdrop_mint_price"])
+        } else {
+            let mp = self.w.mint_price_q()?;
+            amount_of(&mp["current_price"])
+        }
+    }
+
+    fn whitelist_active(&self) -> bool {
+        let c = self.w.minter_config();
+        match c["whitelist"].as_str() {
+            Some(a) => self
+                .w
+                .app
+                .wrap()
+                .query_wasm_smart::<Value>(a.to_string(), &serde_json::json!({"config": {}}))
+                .ok()
+                .and_then(|v| v["is_active"].as_bool())
+                .unwrap_or(false),
+            None => false,
+        }
+    }
+
+    fn pre_observe(&self, op: &Op) -> Option<Pre> {
+        let (airdrop, payer, funds) = match op {
+            Op::Mint { who, funds } => (false, who.clone(), funds.clone()),
+            Op::MintTo { who, funds, .. } | Op::MintFor { who, funds, .. } => (true, who.clone(), funds.clone()),
+            _ => return None,
+        };
+        let (price, denom) = self.price_in_force(airdrop)?;
+        let fp = self.w.factory_params();
+        let bps = if airdrop { fp["extension"]["airdrop_mint_fee_bps"].as_u64()? } else { fp["mint_fee_bps"].as_u64()? };
+        let kind = if airdrop {
+            "airdrop"
+        } else if self.whitelist_active() {
+            "whitelist"
+        } else {
+            "public"
+        };
+        Some(Pre { price, denom, bps, airdrop, kind, payer, funds })
+    }
+
+    fn violation(&mut self, key: &str, what: String) {
+        if self.res.violations.len() < 8 {
+            self.res.violations.push((key.to_string(), what, self.op_index));
+        }
+    }
+
+    /// execute one op on the real contracts, evaluate the property text, record the step
+    pub fn step(&mut self, op: &Op) -> bool {
+        self.case.ops.push(op.clone());
+        self.op_index = self.case.ops.len() - 1;
+        let pre = self.pre_observe(op);
+        let bal0 = self.w.balances_raw();
+        let out = self.w.run(op);
+        if !out.is_minter_step {
+            *self.res.hist.entry(format!("{}:{}:{}", self.vname, op_kind(op), if out.ok { "ok" } else { "err" })).or_insert(0) += 1;
+            return out.ok;
+        }
+        let bal1 = self.w.balances_raw();
+        self.res.steps += 1;
+        let kind = pre.as_ref().map(|p| p.kind).unwrap_or("-");
+        *self.res.hist.entry(format!("{}:{}:{}:{}", self.vname, op_kind(op), kind, if out.ok { "ok" } else { "err" })).or_insert(0) += 1;
+        if let Some(s) = out.coq {
+            self.steps.push(s);
+        }
+        let is_mint = matches!(op, Op::Mint { .. } | Op::MintTo { .. } | Op::MintFor { .. });
+        // actual balance movements of every tracked account and of the supply
+        let mut actual: BTreeMap<(String, String), i128> = BTreeMap::new();
+        for (k, v1) in &bal1 {
+            let v0 = bal0.get(k).copied().unwrap_or(0);
+            if *v1 != v0 {
+                actual.insert(k.clone(), *v1 as i128 - v0 as i128);
+            }
+        }
+        if !out.ok {
+            // Failed calls move no funds (SetWhitelist creates its whitelist outside the call)
+            if !matches!(op, Op::SetWhitelist { .. }) {
+                if !actual.is_empty() {
+                    self.violation("C02:failed-call-moved-funds", format!("{}: {:?} failed but balances moved: {:?}", self.vname, op, actual));
+                }
+                if let Some(e) = &out.err {
+                    if e.starts_with("STATE-CHANGED-ON-FAILURE") {
+                        self.violation("C02:failed-call-changed-state", format!("{}: {:?}: {}", self.vname, op, e));
+                    }
+                }
+            }
+            return false;
+        }
+        if !is_mint {
+            return true;
+        }
+        let Some(p) = pre else {
+            self.violation("C02:mint-without-price", format!("{}: {:?} succeeded although the price in force could not be queried", self.vname, op));
+            return true;
+        };
+        self.res.ok_mints += 1;
+        self.res.distinct.insert(format!("{}|{}|{}|{}|{}|{}", self.vname, p.kind, p.price, p.denom, p.bps, self.case.payment_address));
+        // --- succeeds only if exactly the price in force was attached ---
+        let exact = if p.price == 0 { p.funds.is_empty() } else { p.funds.len() == 1 && p.funds[0].0 == p.denom && p.funds[0].1 == p.price };
+        if !exact {
+            self.violation(
+                &format!("C02:accepted-inexact-payment:{}", p.kind),
+                format!("{}: {} mint succeeded with funds {:?} while the price in force is {} {}", self.vname, p.kind, p.funds, p.price, p.denom),
+            );
+        }
+        // --- expected movements, from the property text ---
+        let fee: u128 = p.price * p.bps as u128 / 10_000;
+        let div: u128 = if self.featured { 8 } else { 5 };
+        let liq: u128 = (fee + div - 1) / div; // liquidity DAO: 1/5 (featured 1/8) of the fee, rounded up
+        let lp: u128 = fee.saturating_sub(liq);
+        let rest: i128 = p.price as i128 - fee as i128;
+        let mut want: BTreeMap<(String, String), i128> = BTreeMap::new();
+        let mut add = |a: &str, x: i128| {
+            if x != 0 {
+                *want.entry((a.to_string(), p.denom.clone())).or_insert(0) += x;
+            }
+        };
+        add(&p.payer, -(p.price as i128));
+        add(LIQUIDITY_DAO, liq as i128);
+        add(LAUNCHPAD_DAO, lp as i128);
+        add(&self.seller, rest);
+        want.retain(|_, v| *v != 0);
+        // difference actual - expected on every slot
+        let mut diff: BTreeMap<(String, String), i128> = BTreeMap::new();
+        for k in actual.keys().chain(want.keys()) {
+            let d = actual.get(k).copied().unwrap_or(0) - want.get(k).copied().unwrap_or(0);
+            if d != 0 {
+                diff.insert(k.clone(), d);
+            }
+        }
+        if diff.is_empty() {
+            return true;
+        }
+        let minter = self.w.minter.to_string();
+        let slot = |a: &str| (a.to_string(), p.denom.clone());
+        // the recorded defect, and nothing else: a vending airdrop whose remainder price - fee > 0
+        // stays in the minter instead of reaching the seller; every other slot as documented
+        let known = p.airdrop
+            && rest > 0
+            && diff.len() == 2
+            && diff.get(&slot(&minter)) == Some(&rest)
+            && diff.get(&slot(&self.seller)) == Some(&(-rest));
+        if known {
+            self.violation(
+                KNOWN_KEY,
+                format!(
+                    "{}: airdrop at price {} {} with airdrop fee {} bps: payer -{}, fee recipients +{}, seller +0, minter balance +{} (remainder stranded)",
+                    self.vname, p.price, p.denom, p.bps, p.price, fee, rest
+                ),
+            );
+            return true;
+        }
+        let detail = format!(
+            "{}: {} mint {:?} at price {} {} ({} bps, fee {}, seller {}): balance changes {:?}, documented {:?}, difference {:?}",
+            self.vname, p.kind, op, p.price, p.denom, p.bps, fee, self.seller, actual, want, diff
+        );
+        let moved_supply = diff.keys().any(|k| k.0 == "#supply");
+        let sum_accounts: i128 = actual.iter().filter(|(k, _)| k.0 != "#supply").map(|(_, v)| *v).sum();
+        let sum_supply: i128 = actual.iter().filter(|(k, _)| k.0 == "#supply").map(|(_, v)| *v).sum();
+        let key = if diff.contains_key(&slot(&minter)) || diff.keys().any(|k| k.0 == minter) {
+            format!("C02:minter-balance-changed:{}", p.kind)
+        } else if diff.keys().any(|k| k.0 == p.payer) && p.payer != self.seller {
+            format!("C02:payer-charged-wrong-amount:{}", p.kind)
+        } else if diff.keys().any(|k| k.0 == LIQUIDITY_DAO || k.0 == LAUNCHPAD_DAO || k.0 == FOUNDATION || k.0 == chain::FAIRBURN_POOL) {
+            format!("C02:fee-split-wrong:{}", p.kind)
+        } else if diff.keys().any(|k| k.0 == self.seller || k.0 == CREATOR || k.0 == PAYADDR) {
+            format!("C02:seller-paid-wrong:{}", p.kind)
+        } else if moved_supply || sum_accounts != sum_supply {
+            format!("C02:coins-created-or-lost:{}", p.kind)
+        } else {
+            format!("C02:unexpected-balance-change:{}", p.kind)
+        };
+        self.violation(&key, detail);
+        true
+    }
+
+    pub fn finish(mut self) -> (Case, CaseResult) {
+        let coq = case_coq(&mut self.w, &self.init, &self.init_bal, &self.steps);
+        self.res.coq = Some(coq);
+        (self.case, self.res)
+    }
+}
+
+pub fn run_case(c: &Case) -> CaseResult {
+    match Driver::new(c) {
+        Ok(mut d) => {
+            for op in &c.ops {
+                d.step(op);
+            }
+            d.finish().1
+        }
+        Err(_) => {
+            let mut res = CaseResult { coq: None, steps: 0, ok_mints: 0, violations: vec![], hist: BTreeMap::new(), distinct: BTreeSet::new() };
+            *res.hist.entry(format!("{}:create:err", VARIANTS[c.variant].name)).or_insert(0) += 1;
+            res
+        }
+    }
+}
+
+// ---------- payments ----------
+fn other(d: &str) -> &'static str {
+    if d == NATIVE {
+        IBC
+    } else {
+        NATIVE
+    }
+}
+fn sorted(mut v: Vec<(String, u128)>) -> Vec<(String, u128)> {
+    v.sort();
+    v
+}
+fn exact_payment(price: u128, d: &str) -> Vec<(String, u128)> {
+    if price == 0 {
+        vec![]
+    } else {
+        vec![(d.to_string(), price)]
+    }
+}
+/// every way of not paying exactly `price d`
+fn wrong_payments(price: u128, d: &str) -> Vec<Vec<(String, u128)>> {
+    let o = other(d);
+    let mut v: Vec<Vec<(String, u128)>> = vec![];
+    if price == 0 {
+        v.push(vec![(d.to_string(), 1)]); // a coin when the price is 0
+        v.push(vec![(o.to_string(), 1)]);
+        v.push(sorted(vec![(d.to_string(), 1), (o.to_string(), 1)]));
+    } else {
+        if price > 1 {
+            v.push(vec![(d.to_string(), price - 1)]);
+        }
+        v.push(vec![(d.to_string(), price + 1)]);
+        v.push(vec![(o.to_string(), price)]); // right amount, wrong denom
+        v.push(sorted(vec![(d.to_string(), price), (o.to_string(), 1)])); // an extra coin
+        v.push(sorted(vec![(d.to_string(), price), (o.to_string(), price)]));
+        v.push(vec![]); // nothing when the price is > 0
+        v.push(vec![(d.to_string(), price * 2)]);
+    }
+    v
+}
+
+fn bps_pool() -> Vec<u64> {
+    vec![0, 1, 3333, 9999, 10000, 1000, 500, 5000]
+}
+
+fn price_pool(min: u128, lits: &[u128]) -> Vec<u128> {
+    let mut v: Vec<u128> = vec![min, min + 1, 9999, 10000, 10001, 100_000_001, BIG];
+    for l in lits {
+        for x in [l.saturating_sub(1), *l, l + 1] {
+            if x <= BIG {
+                v.push(x);
+            }
+        }
+    }
+    v.retain(|p| *p >= min);
+    v.sort();
+    v.dedup();
+    v
+}
+
+fn literals() -> Vec<u128> {
+    let mut l = harvest_literals(&[
+        "contracts/minters/vending-minter/src/contract.rs",
+        "contracts/minters/vending-minter-featured/src/contract.rs",
+        "contracts/minters/vending-minter-wl-flex/src/contract.rs",
+        "contracts/minters/vending-minter-wl-flex-featured/src/contract.rs",
+        "contracts/minters/vending-minter-merkle-wl/src/contract.rs",
+        "contracts/minters/vending-minter-merkle-wl-featured/src/contract.rs",
+        "packages/sg1/src/lib.rs",
+    ]);
+    l.retain(|x| *x <= BIG);
+    l
+}
+
+// ---------- adaptive generator ----------
+fn sweep(d: &mut Driver, rng: &mut Rng, airdrop: bool, who: &str, n_wrong: usize, do_exact: bool) {
+    let Some((price, dn)) = d.price_in_force(airdrop) else { return };
+    let mk = |d: &Driver, rng: &mut Rng, funds: Vec<(String, u128)>| -> Op {
+        if !airdrop {
+            Op::Mint { who: who.into(), funds }
+        } else if rng.chance(1, 2) {
+            Op::MintTo { who: who.into(), recipient: (*rng.pick(&[BUYERS[0], BUYERS[1], STRANGER])).into(), funds }
+        } else {
+            let pos = d.w.positions();
+            let id = if pos.is_empty() || rng.chance(1, 12) { 0 } else { pos[rng.below(pos.len() as u64) as usize].1 };
+            Op::MintFor { who: who.into(), token_id: id, recipient: (*rng.pick(&[BUYERS[0], BUYERS[2]])).into(), funds }
+        }
+    };
+    let wrong = wrong_payments(price, &dn);
+    for _ in 0..n_wrong {
+        let f = rng.pick(&wrong).clone();
+        let op = mk(d, rng, f);
+        d.step(&op);
+    }
+    if do_exact {
+        let op = mk(d, rng, exact_payment(price, &dn));
+        d.step(&op);
+    }
+}
+
+fn gen_case(rng: &mut Rng, variant: usize, thorough: bool, lits: &[u128]) -> (Case, CaseResult) {
+    let min_price = *rng.pick(&[0u128, 0, 1, 50, 50, 9999, 10000, 100_000_000, BIG - 1]);
+    let pool = price_pool(min_price, lits);
+    let base: Vec<u128> = vec![min_price, min_price + 1, 9999, 10000, 10001, 100_000_001, BIG].into_iter().filter(|p| *p >= min_price).collect();
+    let price = if rng.chance(3, 4) { *rng.pick(&base) } else { *rng.pick(&pool) };
+    let wl = rng.chance(2, 5);
+    let c = Case {
+        variant,
+        ibc: rng.chance(1, 3),
+        min_price,
+        price,
+        mint_fee_bps: *rng.pick(&bps_pool()),
+        airdrop_price: *rng.pick(&[0u128, 0, 1, 100, 9999, 10001, 100_000_001, BIG]),
+        airdrop_fee_bps: *rng.pick(&bps_pool()),
+        payment_address: rng.chance(1, 2),
+        wl,
+        wl_price: *rng.pick(&[0u128, 1, min_price, price.saturating_sub(1).max(1), 60, 10001, BIG]),
+        ops: vec![],
+    };
+    let mut d = match Driver::new(&c) {
+        Ok(d) => d,
+        Err(_) => {
+            let r = run_case(&c);
+            return (c, r);
+        }
+    };
+    // sometimes pre-fund the minter through the recorded defect (an airdrop whose whole price is
+    // stranded), so that a later over-disbursement has something to pay from
+    if rng.chance(1, 3) {
+        d.step(&Op::SudoParams { min_price: None, mint_fee_bps: None, airdrop_price: Some(*rng.pick(&[100_000_001u128, BIG])), airdrop_fee_bps: Some(0), offset: None, max_pal: None, shuffle_fee: None });
+        sweep(&mut d, rng, true, CREATOR, 0, true);
+        d.step(&Op::SudoParams { min_price: None, mint_fee_bps: None, airdrop_price: Some(c.airdrop_price), airdrop_fee_bps: Some(c.airdrop_fee_bps), offset: None, max_pal: None, shuffle_fee: None });
+    }
+    let h13 = 13 * 3600;
+    let phases: [(u64, &str); 4] = [(500, "pre"), (1500, "wl"), (3100, "public"), (3100 + h13, "late")];
+    let rounds = if thorough { 3 } else { 2 };
+    let mut t_extra = 0u64;
+    for (secs, phase) in phases {
+        d.step(&Op::At { secs: secs + t_extra, nanos: rng.below(1000) as i64 });
+        let started = phase == "public" || phase == "late";
+        for _ in 0..rounds {
+            // governance moves the fee schedule / airdrop price
+            if rng.chance(2, 5) {
+                d.step(&Op::SudoParams {
+                    min_price: None,
+                    mint_fee_bps: if rng.chance(1, 2) { Some(*rng.pick(&bps_pool())) } else { None },
+                    airdrop_price: if rng.chance(1, 2) { Some(*rng.pick(&[0u128, 1, 100, 9999, 10001, 100_000_001, BIG])) } else { None },
+                    airdrop_fee_bps: if rng.chance(1, 2) { Some(*rng.pick(&bps_pool())) } else { None },
+                    offset: None,
+                    max_pal: None,
+                    shuffle_fee: None,
+                });
+            }
+            // the creator moves the price / discount
+            if rng.chance(1, 4) {
+                let cur: u128 = d.w.minter_config()["mint_price"]["amount"].as_str().unwrap().parse().unwrap();
+                let p = if started {
+                    if cur > min_price { *rng.pick(&[cur - 1, min_price, min_price + (cur - min_price) / 2]) } else { cur }
+                } else {
+                    *rng.pick(&pool)
+                };
+                d.step(&Op::UpdateMintPrice { who: CREATOR.into(), price: p });
+            }
+            if started && rng.chance(1, 3) {
+                let cur: u128 = d.w.minter_config()["mint_price"]["amount"].as_str().unwrap().parse().unwrap();
+                if d.w.minter_config()["discount_price"].get("amount").is_some() && rng.chance(1, 2) {
+                    t_extra += 3700;
+                    d.step(&Op::At { secs: secs + t_extra, nanos: 0 });
+                    d.step(&Op::RemoveDiscountPrice { who: CREATOR.into() });
+                } else {
+                    let p = *rng.pick(&[min_price, cur, cur.saturating_sub(1).max(min_price), min_price + (cur - min_price) / 2]);
+                    d.step(&Op::UpdateDiscountPrice { who: CREATOR.into(), price: p });
+                }
+            }
+            // a mint of some kind with its payment sweep
+            let airdrop = if started || (phase == "wl" && c.wl) { rng.chance(1, 3) } else { rng.chance(4, 5) };
+            let who: &str = if airdrop {
+                if rng.chance(11, 12) { CREATOR } else { BUYERS[0] }
+            } else if phase == "wl" && c.wl {
+                *rng.pick(&[BUYERS[0], BUYERS[1], BUYERS[0], BUYERS[1], STRANGER])
+            } else {
+                *rng.pick(&[BUYERS[0], BUYERS[1], BUYERS[2], STRANGER, CREATOR])
+            };
+            let n_wrong = rng.range(1, 3) as usize;
+            let do_exact = rng.chance(9, 10);
+            sweep(&mut d, rng, airdrop, who, n_wrong, do_exact);
+        }
+    }
+    d.finish()
+}
+
+// ---------- corpus ----------
+fn sudo(mint_fee_bps: Option<u64>, airdrop_price: Option<u128>, airdrop_fee_bps: Option<u64>) -> Op {
+    Op::SudoParams { min_price: None, mint_fee_bps, airdrop_price, airdrop_fee_bps, offset: None, max_pal: None, shuffle_fee: None }
+}
+fn base_case(variant: usize) -> Case {
+    Case { variant, ibc: false, min_price: 50, price: 100, mint_fee_bps: 1000, airdrop_price: 0, airdrop_fee_bps: 10000, payment_address: false, wl: false, wl_price: 60, ops: vec![] }
+}
+fn mint(who: &str, funds: Vec<(String, u128)>) -> Op {
+    Op::Mint { who: who.into(), funds }
+}
+fn mint_to(who: &str, funds: Vec<(String, u128)>) -> Op {
+    Op::MintTo { who: who.into(), recipient: BUYERS[2].into(), funds }
+}
+fn n(a: u128) -> Vec<(String, u128)> {
+    vec![(NATIVE.to_string(), a)]
+}
+fn i(a: u128) -> Vec<(String, u128)> {
+    vec![(IBC.to_string(), a)]
+}
+
+/// curated minimal histories (always first); the first one per variant is the replay of the
+/// recorded finding (DESIGN §8 D6)
+fn corpus() -> Vec<Case> {
+    let mut v = vec![];
+    for variant in 0..6 {
+        // D6: airdrop price 100, airdrop fee 50 %: payer -100, fee recipients +50, minter 0 -> 50;
+        // then a public mint pays out exactly its own price (the stranded 100 stay put)
+        v.push(Case {
+            ops: vec![
+                sudo(None, Some(100), Some(5000)),
+                mint_to(CREATOR, n(100)),
+                Op::MintFor { who: CREATOR.into(), token_id: 7, recipient: BUYERS[0].into(), funds: n(100) },
+                mint_to(CREATOR, n(99)),
+                mint_to(CREATOR, vec![]),
+                mint_to(BUYERS[0], n(100)),
+                Op::At { secs: 3100, nanos: 0 },
+                mint(BUYERS[0], n(100)),
+                // outside the known class: fee = whole price, price = 0
+                sudo(None, Some(100), Some(10000)),
+                mint_to(CREATOR, n(100)),
+                sudo(None, Some(0), Some(5000)),
+                mint_to(CREATOR, vec![]),
+                mint_to(CREATOR, n(1)),
+            ],
+            ..base_case(variant)
+        });
+        // the payment sweep on a public mint, price 101 (not a multiple of anything), payment address set
+        v.push(Case {
+            price: 101,
+            payment_address: true,
+            ops: {
+                let mut o = vec![Op::At { secs: 3100, nanos: 0 }];
+                for f in wrong_payments(101, NATIVE) {
+                    o.push(mint(BUYERS[0], f));
+                }
+                o.push(mint(BUYERS[0], n(101)));
+                o.push(mint(CREATOR, n(101)));
+                o
+            },
+            ..base_case(variant)
+        });
+        // fee boundaries through governance: fee 0 (0 bps), fee 1 (the DAO share 0 makes the bank reject
+        // the whole mint), fee 2, fee = price (10000 bps: the seller gets nothing), fee = price - 1
+        v.push(Case {
+            price: 10000,
+            ops: vec![
+                Op::At { secs: 3100, nanos: 0 },
+                sudo(Some(0), None, None),
+                mint(BUYERS[0], n(10000)),
+                sudo(Some(1), None, None),
+                mint(BUYERS[0], n(10000)),
+                sudo(Some(2), None, None),
+                mint(BUYERS[0], n(10000)),
+                sudo(Some(10000), None, None),
+                mint(BUYERS[0], n(10000)),
+                sudo(Some(9999), None, None),
+                mint(BUYERS[1], n(10000)),
+                sudo(Some(3333), None, None),
+                mint(BUYERS[1], n(10000)),
+                mint(BUYERS[1], n(9999)),
+                mint(BUYERS[1], n(10001)),
+                // airdrop fee rate differs from the mint fee rate
+                sudo(Some(500), Some(10001), Some(10000)),
+                mint_to(CREATOR, n(10001)),
+                mint(BUYERS[2], n(10000)),
+            ],
+            ..base_case(variant)
+        });
+        // zero price: nothing must be attached; a coin is rejected; a zero coin cannot be attached
+        v.push(Case {
+            min_price: 0,
+            price: 0,
+            payment_address: true,
+            ops: vec![
+                Op::At { secs: 3100, nanos: 0 },
+                mint(BUYERS[0], n(1)),
+                mint(BUYERS[0], i(1)),
+                mint(BUYERS[0], n(0)),
+                mint(BUYERS[0], vec![]),
+                mint_to(CREATOR, vec![]),
+                mint_to(CREATOR, n(1)),
+            ],
+            ..base_case(variant)
+        });
+        // price 1 (fee 0 at every rate below 10000; fee 1 at 10000 bps => the mint fails)
+        v.push(Case {
+            min_price: 1,
+            price: 1,
+            ops: vec![
+                Op::At { secs: 3100, nanos: 0 },
+                mint(BUYERS[0], vec![]),
+                mint(BUYERS[0], n(2)),
+                mint(BUYERS[0], n(1)),
+                sudo(Some(10000), None, None),
+                mint(BUYERS[0], n(1)),
+                sudo(Some(9999), None, None),
+                mint(BUYERS[0], n(1)),
+            ],
+            ..base_case(variant)
+        });
+        // whitelist price, then public price, then discount, then discount removed
+        v.push(Case {
+            wl: true,
+            wl_price: 60,
+            payment_address: variant % 2 == 0,
+            ops: vec![
+                Op::At { secs: 1500, nanos: 0 },
+                mint(BUYERS[0], n(100)),
+                mint(BUYERS[0], n(59)),
+                mint(BUYERS[0], n(61)),
+                mint(BUYERS[0], i(60)),
+                mint(BUYERS[0], n(60)),
+                mint(STRANGER, n(60)),
+                mint(BUYERS[1], n(60)),
+                Op::At { secs: 3100, nanos: 0 },
+                mint(BUYERS[0], n(60)),
+                mint(BUYERS[0], n(100)),
+                Op::UpdateDiscountPrice { who: CREATOR.into(), price: 80 },
+                mint(BUYERS[1], n(100)),
+                mint(BUYERS[1], n(79)),
+                mint(BUYERS[1], n(80)),
+                Op::At { secs: 3100 + 3700, nanos: 0 },
+                Op::RemoveDiscountPrice { who: CREATOR.into() },
+                mint(BUYERS[2], n(80)),
+                mint(BUYERS[2], n(100)),
+                Op::UpdateMintPrice { who: CREATOR.into(), price: 70 },
+                mint(BUYERS[2], n(100)),
+                mint(BUYERS[2], n(70)),
+            ],
+            ..base_case(variant)
+        });
+        // free whitelist on a priced sale
+        v.push(Case {
+            wl: true,
+            wl_price: 0,
+            ops: vec![
+                Op::At { secs: 1500, nanos: 0 },
+                mint(BUYERS[0], n(100)),
+                mint(BUYERS[0], n(1)),
+                mint(BUYERS[0], vec![]),
+                Op::At { secs: 3100, nanos: 0 },
+                mint(BUYERS[0], vec![]),
+                mint(BUYERS[0], n(100)),
+            ],
+            ..base_case(variant)
+        });
+        // a minter that holds coins (stranded by the recorded defect): every later mint must still
+        // pay out exactly its own price, and a payment in the wrong denom must still be rejected
+        v.push(Case {
+            payment_address: true,
+            ops: vec![
+                sudo(None, Some(100_000_001), Some(0)),
+                mint_to(CREATOR, n(100_000_001)),
+                sudo(None, Some(0), Some(10000)),
+                Op::At { secs: 3100, nanos: 0 },
+                mint(BUYERS[0], i(100)),
+                mint(BUYERS[0], n(101)),
+                mint(BUYERS[0], n(99)),
+                mint(BUYERS[0], vec![]),
+                mint(BUYERS[0], sorted(vec![(NATIVE.to_string(), 100), (IBC.to_string(), 100)])),
+                mint(BUYERS[0], n(100)),
+                mint_to(CREATOR, i(1)),
+                mint_to(CREATOR, vec![]),
+                sudo(Some(3333), Some(50), Some(1)),
+                mint_to(CREATOR, i(50)),
+                mint_to(CREATOR, n(50)),
+                mint(BUYERS[1], n(100)),
+            ],
+            ..base_case(variant)
+        });
+        // IBC-denominated sale: price and fees in the IBC denom; the airdrop price stays native
+        v.push(Case {
+            ibc: true,
+            price: 10001,
+            mint_fee_bps: 3333,
+            payment_address: variant % 2 == 1,
+            ops: vec![
+                Op::At { secs: 3100, nanos: 0 },
+                mint(BUYERS[0], n(10001)),
+                mint(BUYERS[0], i(10000)),
+                mint(BUYERS[0], i(10001)),
+                sudo(None, Some(9999), Some(10000)),
+                mint_to(CREATOR, i(9999)),
+                mint_to(CREATOR, n(9999)),
+            ],
+            ..base_case(variant)
+        });
+        // very large price
+        v.push(Case {
+            min_price: BIG - 1,
+            price: BIG,
+            mint_fee_bps: 9999,
+            ops: vec![
+                Op::At { secs: 3100, nanos: 0 },
+                mint(BUYERS[0], n(BIG - 1)),
+                mint(BUYERS[0], n(BIG + 1)),
+                mint(BUYERS[0], n(BIG)),
+                sudo(Some(3333), Some(BIG), Some(10000)),
+                mint_to(CREATOR, n(BIG)),
+                mint(BUYERS[0], n(BIG)),
+            ],
+            ..base_case(variant)
+        });
+    }
+    v
+}
+
+// ---------- shrinking ----------
+/// the shortest prefix that still shows the violation, then greedy removal of earlier ops
+fn shrink(c: &Case, key: &str, at: usize) -> Case {
+    let mut best = Case { ops: c.ops[..=at.min(c.ops.len() - 1)].to_vec(), ..c.clone() };
+    let shows = |cand: &Case| run_case(cand).violations.iter().any(|v| v.0 == key);
+    if !shows(&best) {
+        return c.clone();
+    }
+    let mut budget = 60;
+    let mut k = 0;
+    while k + 1 < best.ops.len() && budget > 0 {
+        let mut cand = best.clone();
+        cand.ops.remove(k);
+        budget -= 1;
+        if shows(&cand) {
+            best = cand;
+        } else {
+            k += 1;
+        }
+    }
+    best
+}
+
+pub fn run(a: &Args) {
+    let out = OutDir::new(&a.out);
+    let mut rep = Report { property: "C02".into(), tier: a.tier.clone(), seed: a.seed, ..Default::default() };
+    let mut results: Vec<(Case, CaseResult)> = vec![];
+    if let Some(p) = &a.replay {
+        #[derive(Deserialize)]
+        struct ReplayFile {
+            case: Case,
+        }
+        let rf: ReplayFile = serde_json::from_str(&std::fs::read_to_string(p).expect("replay file")).expect("replay json");
+        let r = run_case(&rf.case);
+        results.push((rf.case, r));
+    } else {
+        let mut rng = Rng::new(a.seed);
+        for c in corpus() {
+            let r = run_case(&c);
+            results.push((c, r));
+        }
+        let lits = literals();
+        let per_variant = if a.thorough() { 120 } else { 11 };
+        for _ in 0..per_variant {
+            for variant in 0..6 {
+                results.push(gen_case(&mut rng, variant, a.thorough(), &lits));
+            }
+        }
+    }
+    let mut coq_cases = vec![];
+    let mut nviol = 0;
+    let mut distinct: BTreeSet<String> = BTreeSet::new();
+    let mut seen_keys: BTreeMap<String, u32> = BTreeMap::new();
+    let ncases = results.len();
+    for (idx, (c, r)) in results.into_iter().enumerate() {
+        rep.evaluations += r.steps;
+        for (k, v) in &r.hist {
+            *rep.histogram.entry(k.clone()).or_insert(0) += v;
+        }
+        distinct.extend(r.distinct.iter().cloned());
+        for (key, what, at) in r.violations.iter() {
+            let seen = seen_keys.entry(key.clone()).or_insert(0);
+            *seen += 1;
+            // one replay per key for the recorded finding, up to three for anything else
+            if *seen > if key == KNOWN_KEY { 1 } else { 3 } || nviol >= 20 {
+                continue;
+            }
+            nviol += 1;
+            let small = if a.replay.is_some() { c.clone() } else { shrink(&c, key, *at) };
+            let body = format!(
+                "{{\n \"property\": \"C02\",\n \"key\": {},\n \"case\": {},\n \"violation\": {}\n}}\n",
+                serde_json::to_string(key).unwrap(),
+                serde_json::to_string(&small).unwrap(),
+                serde_json::to_string(what).unwrap()
+            );
+            let path = out.write_replay(&format!("C02-{}.json", nviol), &body);
+            rep.violations.push(Violation { key: key.clone(), what: what.clone(), replay: path });
+        }
+        if rep.samples.len() < 3 && (idx % 41 == 7 || a.replay.is_some()) {
+            rep.samples.push(serde_json::json!({"variant": VARIANTS[c.variant].name, "ibc": c.ibc, "price": c.price.to_string(),
+                "mint_fee_bps": c.mint_fee_bps, "airdrop_price": c.airdrop_price.to_string(), "airdrop_fee_bps": c.airdrop_fee_bps,
+                "payment_address": c.payment_address, "whitelist": c.wl,
+                "first_ops": c.ops.iter().take(8).map(|o| format!("{:?}", o)).collect::<Vec<_>>(), "steps": r.steps, "ok_mints": r.ok_mints}));
+        }
+        if let Some(cq) = r.coq {
+            coq_cases.push(cq);
+        }
+    }
+    // balance the shards: write_cases cuts the list into equal counts, so order the cases such
+    // that every block of that many cases has about the same text size
+    {
+        let shards = 6usize;
+        let per = (coq_cases.len() + shards - 1) / shards;
+        let mut order: Vec<usize> = (0..coq_cases.len()).collect();
+        order.sort_by_key(|i| std::cmp::Reverse(coq_cases[*i].len()));
+        let mut buckets: Vec<(usize, Vec<usize>)> = vec![(0, vec![]); shards];
+        for i in order {
+            let b = buckets.iter_mut().filter(|b| b.1.len() < per).min_by_key(|b| b.0).unwrap();
+            b.0 += coq_cases[i].len();
+            b.1.push(i);
+        }
+        let idx: Vec<usize> = buckets.into_iter().flat_map(|b| b.1).collect();
+        coq_cases = idx.into_iter().map(|i| std::mem::take(&mut coq_cases[i])).collect();
+    }
+    rep.distinct_nontrivial = distinct.len() as u64;
+    rep.rule = "sale worlds on each of the six vending minters with governance-chosen price / mint fee bps / airdrop price / airdrop fee bps (moved by sudo during the history), native or IBC denom, with/without payment address, optional whitelist with its own price, discount set/removed; before every mint the price in force is queried and the sweep price-1, price+1, wrong denom, two coins, nothing (a coin at price 0), exact is sent; evaluations = minter steps executed on the real contracts; distinct_nontrivial = distinct (variant, mint kind, price, denom, fee bps, payment address) among SUCCESSFUL mints".into();
+    out.write_cases("C02", "From LP Require Import Num Pay Sg1 Bank MinterVending SaleCorr.", "scase", "sale_check", &coq_cases, 6, &mut rep);
+    out.finish(&rep);
+    println!("C02 harness: {} cases, {} steps, {} monitor violations reported", ncases, rep.evaluations, nviol);
 }
